@@ -335,6 +335,7 @@ class Interp:
         self.sinks = sinks
         self.lookups = lookups
         self.no_inline = tuple(no_inline_prefixes)
+        self.record_inspections = set()   # resolved paths of inspection functions whose use is recorded on the path
         self.protected = None     # predicate(cons key, value): assumptions that merging must keep apart
         self.pruned = {}          # site -> count  (recursion / loop bound)
         self.inlined = set()
@@ -421,10 +422,15 @@ class Interp:
         return True
 
     # ------------------------------------------------------------------ driver
-    def run_root(self, fn_path, bindings, handler_from_depth=1):
+    def run_root(self, fn_path, bindings, assume=None):
         b = self.c.hir[fn_path]
         st = State()
         st.stack = (fn_path,)
+        if assume:
+            st.cons.update(assume)
+            for k, v in assume.items():
+                if k[0] == "var":
+                    st.note("%s is %s" % (pathstr(k[1]), v[1]))
         for (pat, _ty) in b["params"]:
             name = pat[1] if hirq.is_node(pat) and pat[0] == "pbind" else None
             if name is not None:
@@ -995,8 +1001,7 @@ class Interp:
         cur = [st]
         out = []
         seen = set()
-        site = id(e)
-        for it in range(K_LOOP + 1):
+        for _it in range(K_LOOP + 1):
             nxt = []
             for s in cur:
                 try:
@@ -1467,6 +1472,9 @@ class Interp:
             ps = []
             for v in vals:
                 node_paths(v, ps)
+            if d in self.record_inspections:
+                # the path consulted this analysis datum of these nodes
+                st.cons[("seen", d, tuple(ps))] = True
             return [(st, ("ad", name, tuple(ps)))]
         if recv is not None and recv[0] in ("ad", "sym"):
             return [(st, ("sym", (recv, name)))]
